@@ -20,9 +20,9 @@
    DEFINITION LINES.  C15's events (name, kind) are extended to l-events (name, kind, pay): [pay_line] is
    the [lineno] the PyName object is created with, [pay_app] what the event appends to [assignments] of an
    existing AssignedName ([ALine l]: an AssignmentValue whose node is on line l; [APoison]: an
-   AssignmentValue without node - the bare annotation [x: T] -, whose get_lineno() raises AttributeError,
-   which is suppressed and leaves the line unknown for good because only assignments[0] is ever consulted;
-   [ANone]: nothing - walrus targets).  The line of a statement stands for the line of the assigned value
+   AssignmentValue without node - the bare annotation [x: T] -, whose get_lineno() raises AttributeError:
+   since repo commit 5d25e3b get_definition_location goes on to the first assignment that has a node, so
+   it weighs like [ANone]: nothing - walrus targets).  The line of a statement stands for the line of the assigned value
    (they coincide unless the value starts on a continuation line; the harness keeps the correspondence
    inside that domain and the oracle reports the others).  The tree of l-events [ltree] has the shape of
    [rope_tree] by construction (erasure lemma in CompleteProofs.v). *)
@@ -214,8 +214,8 @@ Fixpoint lscope_at (t : lscope) (p : path) : option lscope :=
   end.
 
 (* ------------------------------------------------------------------ the line of a table entry *)
-(* the PyName object stored under a name: its kind, the lineno it was created with, the line of
-   assignments[0] if there is one ([Some None]: an assignment without line) *)
+(* the PyName object stored under a name: its kind, the lineno it was created with, the line of the first
+   assignment that has one *)
 Notation lstate := (nkind * option N * option (option N))%type.
 
 Definition assigned_kind (k : nkind) : bool :=
@@ -223,7 +223,7 @@ Definition assigned_kind (k : nkind) : bool :=
 Definition app_first (a : app) (cur : option (option N)) : option (option N) :=
   match cur with
   | Some _ => cur
-  | None => match a with ALine l => Some (Some l) | APoison => Some None | ANone => None end
+  | None => match a with ALine l => Some (Some l) | APoison | ANone => None end
   end.
 
 Fixpoint lstate_from (cur : option lstate) (evs : levents) (x : ident) : option lstate :=
@@ -241,7 +241,8 @@ Fixpoint lstate_from (cur : option lstate) (evs : levents) (x : ident) : option 
       else lstate_from cur r x
   end.
 
-(* AssignedName.get_definition_location()[1] (and the fixed lines of the other kinds; an import that does
+(* AssignedName.get_definition_location()[1]: lineno, else the line of the first assignment with a node
+   (and the fixed lines of the other kinds; an import that does
    not resolve has no location) *)
 Definition line_of_state (s : lstate) : option N :=
   match s with
